@@ -69,7 +69,7 @@ def principal(info, ctx):
     return s, kind
 
 
-def apply_rule(logic, info, ctx, setup_name, s):
+def apply_rule(logic, info, ctx, setup_name, s, extra_nodes=None):
     """Apply the rule to the principal node on a fresh branch.  Returns a list of raw applications:
     dict(adds=[[node mapping...]], target facts) plus the context needed to classify constants/worlds."""
     from pytableaux.lang import Predicate, Predicated
@@ -89,7 +89,7 @@ def apply_rule(logic, info, ctx, setup_name, s):
                  sdwnode(Predicated(Predicate(1, 0, 1), (ctx.ca,)), info['designation'], w0)]
     if setup_name == 'access':
         extra = [anode(0, 1)]
-    for e in extra:
+    for e in extra + list(extra_nodes or ()):
         b.append(e)
     b.append(node)
     env = dict(w=w0, old_consts=set(b.constants), old_worlds=set(b.worlds))
